@@ -35,6 +35,8 @@ type Case struct {
 	Rows    int    `json:"rows"`    // size of the base table
 	Edit    int    `json:"edit"`    // row edited by the operation's data
 	Subproc bool   `json:"subproc"` // kill a real wrgl subprocess instead of failing writes in-process
+	// ReadsOnly (merge, subprocess): only the read-fault pass, not the kill at every write
+	ReadsOnly bool `json:"reads_only,omitempty"`
 }
 
 var sub = evid.Register("crash", run)
@@ -56,6 +58,18 @@ func TestPropCrashSubprocess(t *testing.T) {
 	}
 	rapid.Check(t, func(t *rapid.T) {
 		c := Case{Op: rapid.SampledFrom([]string{"commit", "merge", "prune"}).Draw(t, "op"), Rows: rapid.SampledFrom([]int{3, 300}).Draw(t, "rows"), Subproc: true}
+		c.Edit = rapid.IntRange(0, c.Rows-1).Draw(t, "edit")
+		sub.Check(t, c)
+	})
+}
+
+// TestPropMergeReadFault: a real `wrgl merge` subprocess whose n-th object read fails, for every n.
+func TestPropMergeReadFault(t *testing.T) {
+	if os.Getenv("VERIF_WRGL_BIN") == "" {
+		t.Skip("no wrgl binary")
+	}
+	rapid.Check(t, func(t *rapid.T) {
+		c := Case{Op: "merge", Rows: rapid.SampledFrom([]int{3, 40, 300, 520}).Draw(t, "rows"), Subproc: true, ReadsOnly: true}
 		c.Edit = rapid.IntRange(0, c.Rows-1).Draw(t, "edit")
 		sub.Check(t, c)
 	})
@@ -276,6 +290,9 @@ func run(c Case) (o evid.Outcome, err error) {
 	}
 	points := 0
 	modes := []bool{true, false}
+	if c.ReadsOnly {
+		modes = nil
+	}
 	for n := 1; n <= total; n++ {
 		for _, dead := range modes {
 			if c.Subproc && !dead {
@@ -439,6 +456,52 @@ func run(c Case) (o evid.Outcome, err error) {
 			readPoints++
 		}
 		evid.Count("read-fault points executed ("+c.Op+")", readPoints)
+	}
+	// ---- read faults inside `wrgl merge`, in a real subprocess (see the remark above: in-process a
+	// failed differ can take the harness down with it): the n-th object read of the subprocess fails
+	// once. Exit status 0 means the merge claims success - then the branch must end exactly where the
+	// fault-free merge ends; anything else (an error, a crash) must leave a consistent repository on
+	// which the same merge then succeeds with that outcome.
+	if c.Subproc && c.Op == "merge" {
+		for n := 1; n <= 400; n++ {
+			if err := w.restore(); err != nil {
+				return o, fmt.Errorf("HARNESS: restore: %v", err)
+			}
+			what := fmt.Sprintf("merge (subprocess) with object read %d failing", n)
+			cmd := exec.Command(os.Getenv("VERIF_WRGL_BIN"), append([]string{"--wrgl-dir", w.repo.WrglDir}, w.args...)...)
+			cmd.Dir = w.repo.Root
+			cmd.Env = append(os.Environ(), fmt.Sprintf("VERIF_READ_FAIL_AT=%d", n))
+			out, _ := cmd.CombinedOutput()
+			if cmd.ProcessState == nil {
+				return o, fmt.Errorf("HARNESS: subprocess did not run: %s", out)
+			}
+			if !strings.Contains(string(out), "verifhook: injected object read failure") {
+				break // the merge performs fewer than n reads
+			}
+			got, err := w.inspect(checkHeads)
+			if err != nil {
+				return o, fmt.Errorf("%s (exit %d): %v", what, cmd.ProcessState.ExitCode(), err)
+			}
+			if cmd.ProcessState.ExitCode() == 0 {
+				if got != want {
+					return o, fmt.Errorf("%s: the command reported success, but the refs end at different tables/history than without the failure:\n got  %s want %s\n output: %s", what, got, want, strings.TrimSpace(string(out)))
+				}
+				evid.Count("merge read faults survived with the right result", 1)
+			} else {
+				if out, err := w.repo.Run(w.args...); err != nil {
+					return o, fmt.Errorf("%s: running the operation again fails: %v (%s)", what, err, strings.TrimSpace(out))
+				}
+				got, err := w.inspect(checkHeads)
+				if err != nil {
+					return o, fmt.Errorf("%s, then re-run: %v", what, err)
+				}
+				if got != want {
+					return o, fmt.Errorf("%s, then re-run: refs end at different tables/history than an uninterrupted run:\n got  %s want %s", what, got, want)
+				}
+			}
+			readPoints++
+		}
+		evid.Count("read-fault points executed (merge, subprocess)", readPoints)
 	}
 	o.NonTrivial = total >= 4
 	o.Class("op=%s", c.Op)
